@@ -156,6 +156,7 @@ def run(ctx):
         _rec(ctx, cfg, prog, mod)
         _panic(ctx, cfg, prog, mod)
         _arith(ctx, cfg, prog, mod)
+        _idxguard(ctx, cfg, prog, mod)
         _callban(ctx, cfg, prog, mod)
         _finite(ctx, cfg, prog, mod)
         _assertgate(ctx, cfg, prog, mod)
@@ -573,6 +574,93 @@ def _arith(ctx, cfg, prog, mod):
                        len(lst), kinds, ent[0], ent[1], len(lst) - ent[0], [l for _, _, l, _ in lst][:10]), site=site)
         else:
             ctx.ob('ARITH', root, cfg, True, '%d site(s) <= %d classified: %s' % (len(lst), ent[0], ent[1]), site=site)
+
+
+# ------------------------------------------------------------------------------------------ IDXGUARD
+HANDLE_ACCESSORS = ('FacetHandle::facet_index', 'RidgeHandle::', 'TriangleHandle::', 'EdgeKey::')
+
+
+def _idxguard(ctx, cfg, prog, mod):
+    """A slice index that derives from a caller-supplied handle (FacetHandle::facet_index ...) is a panic site
+    for an out-of-range handle unless a comparison on that value dominates the indexing."""
+    import valueflow
+    ctx.rule('IDXGUARD', 'slice indexing with an index derived from a caller-supplied handle is dominated by a range comparison on it')
+    n = 0
+    for q, b in sorted(prog.bodies.items()):
+        if '::tests::' in q or not b.file.startswith('src/'):
+            continue
+        al = None
+        dom = None
+        for blk in b.blocks:
+            t = blk.term
+            if blk.cleanup or t.k != 'assert' or t.raw.get('m') != 'BoundsCheck':
+                continue
+            mo = t.raw.get('mo', [])
+            if len(mo) < 2 or mo[1][0] == 'k':
+                continue
+            al = al or mod.aliases(q)
+            leaves = valueflow.deep_sources(prog, mod, b, mo[1][1][0], depth=1)
+            acc = [l for l in leaves if l[0] == 'call' and l[3] == q and
+                   any(a in (l[1].resolved or l[1].callee or '') for a in HANDLE_ACCESSORS)]
+            if not acc:
+                continue
+            # values carrying the handle index: destinations of the accessor calls and their copies / casts
+            roots = set()
+            for l in acc:
+                if l[1].dest is not None and l[1].dest.is_local():
+                    roots.add(l[1].dest.local)
+            carried = set(roots)
+            changed = True
+            while changed:
+                changed = False
+                for bb2 in b.blocks:
+                    for s_ in bb2.stmts:
+                        if s_.kind == 'A' and s_.place.is_local() and s_.place.local not in carried and s_.rv.k in ('use', 'cast') and \
+                                s_.rv.ops and s_.rv.ops[0].place is not None and s_.rv.ops[0].place.local in carried:
+                            carried.add(s_.place.local)
+                            changed = True
+                    t2 = bb2.term
+                    if t2.k == 'call' and t2.dest is not None and t2.dest.is_local() and t2.dest.local not in carried and \
+                            (t2.callee or '').rsplit('::', 1)[-1] in ('from', 'into', 'try_from', 'unwrap', 'branch') and \
+                            any(o.place is not None and o.place.local in carried for o in t2.args):
+                        carried.add(t2.dest.local)
+                        changed = True
+            # the index must *be* the handle's value (copies / integer conversions), not merely depend on it
+            idx_local = mo[1][1][0]
+            idx_def = b.single_def(idx_local)
+            idx_srcs = {idx_local}
+            if idx_def is not None and idx_def[1] != 'term' and idx_def[2].rv.k in ('use', 'cast') and idx_def[2].rv.ops and \
+                    idx_def[2].rv.ops[0].place is not None:
+                idx_srcs.add(idx_def[2].rv.ops[0].place.local)
+            if not (idx_srcs & carried):
+                continue
+            n += 1
+            # comparison blocks on a carried value
+            cmp_locals = set()
+            for bb2 in b.blocks:
+                for s_ in bb2.stmts:
+                    if s_.kind == 'A' and s_.rv.k == 'bin' and s_.rv.raw.get('op') in ('Lt', 'Le', 'Gt', 'Ge') and s_.place.is_local() and \
+                            any(o.place is not None and o.place.is_local() and o.place.local in carried for o in s_.rv.ops):
+                        cmp_locals.add(s_.place.local)
+            guards = [bb2.idx for bb2 in b.blocks if bb2.term.k == 'switch' and bb2.term.discr.place is not None and
+                      bb2.term.discr.place.is_local() and bb2.term.discr.place.local in cmp_locals]
+            ok = any(b.dominates(g, blk.idx) for g in guards)
+            if not ok:
+                # `coll.get(i)` answered Some on every path to the indexing: i is in range of a collection of the
+                # same arity (neighbours / vertices of one cell)
+                some_edges = set()
+                for gb, gt in b.calls():
+                    if (gt.callee or gt.resolved or '').rsplit('::', 1)[-1] in ('get', 'get_mut') and \
+                            any(o.place is not None and o.place.is_local() and o.place.local in carried for o in gt.args[1:]):
+                        some_edges |= flow.call_flow(b, gb).ok_edges
+                if some_edges and blk.idx not in flow.reach_edges(b, [0], avoid_edges=some_edges):
+                    ok = True
+            ctx.ob('IDXGUARD', '%s|L%d' % (b.root or q, sum(1 for o in ctx.obligations if o['rule'] == 'IDXGUARD' and o['cfg'] == cfg and o['key'].startswith('IDXGUARD|%s|' % (b.root or q)))),
+                   cfg, ok, 'slice index derived from %s is %s by a range comparison' % (
+                       sorted({(l[1].resolved or l[1].callee or '').rsplit('::', 2)[-2] + '::' + (l[1].resolved or l[1].callee or '').rsplit('::', 1)[-1] for l in acc}),
+                       'dominated' if ok else 'NOT dominated') + ('' if ok else ': an out-of-range handle panics here'),
+                   site='%s:%d' % (b.file, t.line))
+    ctx.floor('slice indexings with a handle-derived index', 1, n, cfg)
 
 
 # ------------------------------------------------------------------------------------------ CALLBAN
